@@ -410,6 +410,7 @@ fn replay(path: &str) -> i32 {
         "pratt" => eng_pratt::replay(&v),
         "text" => eng_text::replay(&v),
         "nested" => eng_nested::replay(&v),
+        "drops" => eng_drops::replay(&v),
         "leftrec" | "rec" | "rec-life" | "rec-depth" | "rec-define" => eng_rec::replay(&v),
         _ => cvh::replay::replay(&v),
     };
